@@ -36,6 +36,9 @@ TraceSigEv ==
                      \cup (IF IsCallback(e) THEN {} ELSE
                              Cl(e.verifies_over = <<SigRange(f, e.method)>>, "C10.verifies_over_exact_bytes")
                              \cup Cl(e.gpg \in {"ok", "na"}, "C10.gpg_verifies")
+                             \* as-is deviation DpkgSigIgnoresKeyID: clear-signing always uses the primary key of the key file
+                             \cup Cl(e.keyid = "" \/ e.sig_keyid = e.keyid,
+                                     IF e.method = "dpkg-sig" THEN "C10.signed_with_requested_key@DpkgSigIgnoresKeyID" ELSE "C10.signed_with_requested_key")
                              \cup (IF e.method = "dpkg-sig"
                                    THEN Cl(Len(e.manifest) = 3 /\ \A i \in 1..Len(e.manifest) : e.manifest[i].names_stored_member /\ e.manifest[i].digests_match,
                                            "C10.dpkgsig_manifest_matches_members")
@@ -45,6 +48,7 @@ TraceSigEv ==
                      \cup (IF IsCallback(e) THEN {} ELSE
                              Cl(e.rpm_header_sig_over = <<RpmHeaderSigRange>>, "C10.rpm_header_signature_verifies")
                              \cup Cl(e.rpm_pgp_sig_over = <<RpmPgpSigRange>>, "C10.rpm_header_payload_signature_verifies")
+                             \cup Cl(e.keyid = "" \/ e.sig_keyid = e.keyid, "C10.signed_with_requested_key")
                              \cup Cl(e.gpg \in {"ok", "na"}, "C10.gpg_verifies"))
                 [] f = "apk" ->
                      Cl(e.member = ApkSigMember(e.keyname, e.maintainer) /\ e.pos = 1, "C10.apk_signature_member")
